@@ -185,6 +185,7 @@ package rel
 //@   ensures[C09] presentsc: value != nil && err == nil ==> sc(rscope) == bindsc(p.pattern, ctx, sc(local), value)
 //@   ensures[C09] nofb: value == nil && p.fallback == nil ==> err != nil
 //@   ensures[C09] absent: value == nil && p.fallback != nil ==> (err == nil) == (evalok(p.fallback, ctx, sc(local)) && bindok(p.pattern, ctx, sc(local), evalv(p.fallback, ctx, sc(local))))
+//@   ensures nn: err == nil ==> forall n: Str :: shas(sc(rscope), n) ==> sget(sc(rscope), n) != nil
 //-   ensures[C09] fblen: err == nil ==> forall k in 0..len(p.items) :: !isRest(p.items[k]) && p.items[k].fallback != nil ==> alen(value) == len(p.items) || alen(value) == len(p.items) - 1
 //-   ensures[C09] fbtail: err == nil ==> forall k in 0..len(p.items) :: !isRest(p.items[k]) && p.items[k].fallback != nil && alen(value) == len(p.items) - 1 ==> k == len(p.items) - 1
 
@@ -218,17 +219,112 @@ package rel
 //@   ensures[C09] generr: evalok(e.controlVarExpr, ctx, sc(scope)) ==> forall j in 0..len(e.conditionPairs) :: binderr(e.conditionPairs[j].pattern, ctx, sc(scope), evalv(e.controlVarExpr, ctx, sc(scope))) && (forall k in 0..j :: !armok(e, ctx, scope, k)) ==> err != nil
 //@   loop 0 invariant nomatch: forall k in 0..$idx :: !armok(e, old(ctx), scope, k)
 
-// ---- Dict / Set patterns: safety only (C10 obligations under the C09 tag). No frame clause: the helpers they call
-// (Dict/Set/Names methods over frozen) have no contracts, so the state is havocked at those calls; the binding
-// postconditions are NOT claimed (see notes). TuplePattern.Bind is not under contract for the same reason. ------
+// ---- DictPattern (pattern_dict.go) -------------------------------------------------------------------
+// {k0: p0, k1?: p1:fb, ...rest} read as an expression builds the dict with exactly those keys. Bind must: reject
+// non-dicts; bind EVERY entry's pattern against the value stored under its key; use the fallback only for a key
+// that is ABSENT; combine the bindings of all entries with the AGREEMENT rule (result carries every entry's
+// bindings with an Equal value: `matched`/`fbmatched` = bound + carried, see 97_pattern.smt2) - an overwriting
+// merge (Scope.Update) or a skipped entry breaks `entry`/`missing`.
 //@ func (DictPattern).Bind(p; ctx, local, value)
 //@   tags C09, C10
+//@   assigns fresh-only
+//@   modifies evald, scenum, scvisited, sccur, nodupG
+//@   ghostentry nodupG := nodupE(p.entries)
+//@   returns (rctx, rscope, err)
 //@   requires value != nil
 //@   requires wf: forall i in 0..len(p.entries) :: p.entries[i].pattern.pattern != nil && p.entries[i].at != nil
+//@   ensures[C09] notdict: !(value is Dict) ==> err != nil
+//@   ensures[C09] dupkey: !nodupG ==> err != nil
+//@   ensures[C09] entry: err == nil && nodupE(p.entries) ==> forall i in 0..len(p.entries) :: !isRestE(p.entries[i]) && vmhas(dr(value), dkey(p.entries[i])) ==> matched(p.entries[i].pattern.pattern, sc(local), vmget(dr(value), dkey(p.entries[i])), sc(rscope))
+//@   ensures[C09] missing: err == nil ==> forall i in 0..len(p.entries) :: !isRestE(p.entries[i]) && !vmhas(dr(value), dkey(p.entries[i])) ==> p.entries[i].pattern.fallback != nil && fbmatched(p.entries[i].pattern.pattern, p.entries[i].pattern.fallback, sc(local), sc(rscope))
+// not claimed (x-c09): the `...rest` clause of DictPattern. Written with an existential witness for the value handed to the rest pattern; inv.0.rest.step does
+// not discharge (and its presence makes inv.0.rem.step unstable). The defect it would expose (rest taken at its POSITION: `let {...r, "a": x} = {"a":1,"b":2}; r` = {"a":1,"b":2})
+// is recorded from a probe in findings_proposed/x-c09.json.
+//-   ensures[C09] rest: err == nil ==> forall i in 0..len(p.entries) :: isRestE(p.entries[i]) ==> exists v: Val :: dictRestIs(v, dr(value), p.entries, len(p.entries)) && matched(p.entries[i].pattern.pattern, sc(local), v, sc(rscope))
+//-   loop 0 invariant gone: forall k in 0..$idx :: !isRestE(p.entries[k]) ==> !vmhas(fr(m), dkey(p.entries[k]))
+//-   loop 0 invariant rest: forall i in 0..$idx :: isRestE(p.entries[i]) ==> exists v: Val :: dictRestIs(v, dr(value), p.entries, i) && matched(p.entries[i].pattern.pattern, sc(local), v, sc(result))
+//@   loop 0 invariant bnd: 0 <= $idx && $idx <= len(p.entries)
 //@   loop 0 invariant nn: forall n: Str :: shas(sc(result), n) ==> sget(sc(result), n) != nil
+//@   loop 0 invariant sub: forall j: Val :: vmhas(fr(m), j) ==> vmhas(dr(value), j) && vmget(fr(m), j) == vmget(dr(value), j)
+//-   loop 0 invariant rem: forall j: Val :: vmhas(dr(value), j) && (forall k in 0..$idx :: !isRestE(p.entries[k]) ==> !eq(j, dkey(p.entries[k]))) ==> vmhas(fr(m), j)
+//@   loop 0 invariant nd: nodupG ==> nodupE(p.entries)
+//@   loop 0 invariant present: nodupG ==> forall i in $idx..len(p.entries) :: !isRestE(p.entries[i]) && vmhas(dr(value), dkey(p.entries[i])) ==> vmhas(fr(m), dkey(p.entries[i]))
+//@   loop 0 invariant entry: nodupG ==> forall i in 0..$idx :: !isRestE(p.entries[i]) && vmhas(dr(value), dkey(p.entries[i])) ==> matched(p.entries[i].pattern.pattern, sc(local), vmget(dr(value), dkey(p.entries[i])), sc(result))
+//@   loop 0 invariant missing: forall i in 0..$idx :: !isRestE(p.entries[i]) && !vmhas(dr(value), dkey(p.entries[i])) ==> p.entries[i].pattern.fallback != nil && fbmatched(p.entries[i].pattern.pattern, p.entries[i].pattern.fallback, sc(local), sc(result))
 
-// (SetPattern.Bind: NOT under contract — with the contract-less Set helpers the state is havocked and the implicit
-// safety obligations fail spuriously; its explicit panic is recorded from a probe, see notes.)
+// ---- TuplePattern (pattern_tuple.go) -----------------------------------------------------------------
+// thin TRUSTED contracts of the Names helpers (bodies delegate to frozen.Set[string]); they DEFINE nmhas/nmcard of the results
+//@ func (Names).IsTrue(n)
+//@   tags C09
+//@   trusted
+//@   pure
+//@   ensures result == (nmcard(fr(n)) != 0)
+//@ func (Names).Without(n; name)
+//@   ensures forall x: Str :: nmhas(fr(result), x) == (nmhas(fr(n), x) && x != name)
+//@ globalfact EmptyNames nmcard(fr(EmptyNames)) == 0
+
+// the local closure `bind`: binds attr's pattern against tupleValue (under the captured `local`) and merges the bindings
+// into base with the AGREEMENT rule
+//@ func (TuplePattern).Bind$1(ctx, attr, base, tupleValue)
+//@   tags C09, C10
+//@   assigns fresh-only
+//@   modifies evald, scenum, scvisited, sccur
+//@   returns (rctx, r, err)
+//@   requires attr.pattern.pattern != nil && tupleValue != nil
+//@   requires nn: forall n: Str :: shas(sc(base), n) ==> sget(sc(base), n) != nil
+//@   ensures[C09] bound: err == nil ==> matched(attr.pattern.pattern, sc(local), tupleValue, sc(r)) && covered(sc(r), sc(base))
+//@   ensures nn: err == nil ==> forall n: Str :: shas(sc(r), n) ==> sget(sc(r), n) != nil
+
+// (a: p, b?: q:fb, ...rest) read as an expression builds the tuple with exactly those attributes. Bind must: reject
+// non-tuples; bind every attribute that is PRESENT from its value (also when that value is falsy: 0, {}, ());
+// use the fallback only for an ABSENT attribute; hand `...rest` exactly the attributes not named; reject a tuple
+// with attributes that are not named when there is no `...rest`; merge all bindings with the agreement rule.
+//@ func (TuplePattern).Bind(p; ctx, local, value)
+//@   tags C09, C10
+//@   assigns fresh-only
+//@   modifies evald, scenum, scvisited, sccur
+//@   returns (rctx, rscope, err)
+//@   requires value != nil
+//@   requires wf: forall i in 0..len(p.attrs) :: p.attrs[i].pattern.pattern != nil
+//@   ensures[C09] nottuple: !(value is Tuple) ==> err != nil
+//@   ensures[C09] present: err == nil ==> forall i in 0..len(p.attrs) :: !isRestA(p.attrs[i]) && hasattr(value, p.attrs[i].name) ==> matched(p.attrs[i].pattern.pattern, sc(local), tget(value, p.attrs[i].name), sc(rscope))
+//@   ensures[C09] absent: err == nil ==> forall i in 0..len(p.attrs) :: !isRestA(p.attrs[i]) && !hasattr(value, p.attrs[i].name) ==> p.attrs[i].pattern.fallback != nil && fbmatched(p.attrs[i].pattern.pattern, p.attrs[i].pattern.fallback, sc(local), sc(rscope))
+// not claimed (x-c09): `...rest` gets exactly the attributes not named. The code keeps `extraPattern = &p.attrs[i]` (pointer to a slice element) across
+// loop iterations; the engine models such a loop-carried pointer as an unconstrained reference, so nothing about *extraPattern (not even that its
+// pattern is non-nil: pre@(rel.TuplePattern).Bind$1#0.0, listed in unclaimed_proposed) can be established. What IS proved about the remainder is the
+// `names` invariant (the names left are exactly the attributes of the value not named so far) and `exact`.
+//-   ensures[C09] rest: err == nil ==> forall i in 0..len(p.attrs) :: isRestA(p.attrs[i]) ==> exists v: Val :: tupleRestIs(v, value, p.attrs, len(p.attrs)) && matched(p.attrs[i].pattern.pattern, sc(local), v, sc(rscope))
+//@   ensures[C09] exact: err == nil && (forall i in 0..len(p.attrs) :: !isRestA(p.attrs[i])) ==> forall x: Str :: hasattr(value, x) ==> exists k in 0..len(p.attrs) :: p.attrs[k].name == x
+//@   loop 0 invariant bnd: 0 <= $idx && $idx <= len(p.attrs)
+//@   loop 0 invariant nn: forall n: Str :: shas(sc(result), n) ==> sget(sc(result), n) != nil
+//@   loop 0 invariant noextra: (forall k in 0..$idx :: !isRestA(p.attrs[k])) ==> extraPattern == nil
+//@   loop 0 invariant names: forall x: Str :: nmhas(fr(names), x) == (hasattr(value, x) && (forall k in 0..$idx :: !isRestA(p.attrs[k]) ==> p.attrs[k].name != x))
+//@   loop 0 invariant present: forall i in 0..$idx :: !isRestA(p.attrs[i]) && hasattr(value, p.attrs[i].name) ==> matched(p.attrs[i].pattern.pattern, sc(local), tget(value, p.attrs[i].name), sc(result))
+//@   loop 0 invariant absent: forall i in 0..$idx :: !isRestA(p.attrs[i]) && !hasattr(value, p.attrs[i].name) ==> p.attrs[i].pattern.fallback != nil && fbmatched(p.attrs[i].pattern.pattern, p.attrs[i].pattern.fallback, sc(local), sc(result))
+
+// ---- SetPattern (pattern_set.go) ---------------------------------------------------------------------
+// {p} with a single structured pattern (array/tuple/dict/set pattern...): a set has no order, so the pattern may only
+// be bound when exactly ONE element is there for it; binding "some" element of several would make the result depend
+// on the enumeration order (C07). The two explicit panics are reached through safe.panic (C10).
+//@ spec extraKind(pt) = pt is rel.ExtraElementPattern || pt is rel.IdentPattern || pt is rel.DynIdentPattern
+//@ spec structKind(pt) = !extraKind(pt) && !(pt is rel.ExprPattern) && !(pt is rel.ExprsPattern)
+//@ func (SetPattern).Bind(p; ctx, local, value)
+//@   tags C09, C10
+//@   returns (rctx, rscope, err)
+//@   requires value != nil
+//@   requires wf: forall i in 0..len(p.patterns) :: p.patterns[i] != nil
+//@   ensures[C09] notset: !(value is Set) ==> err != nil
+//@   ensures[C09,C07] single: err == nil && len(p.patterns) == 1 && structKind(p.patterns[0]) ==> scard(value) == 1 && exists x: Val :: mem2(value, x) && matched(p.patterns[0], sc(local), x, sc(rscope))
+//@   loop 0 invariant dom0: forall k: Int :: has(extraElements, k) ==> 0 <= k && k < len(p.patterns)
+//@   loop 0 invariant nn: set != nil && forall n: Str :: shas(sc(result), n) ==> sget(sc(result), n) != nil
+//@   loop 1 invariant bnd: 0 <= $idx && $idx <= len(p.patterns)
+//@   loop 1 invariant dom1: forall k: Int :: has(extraElements, k) ==> 0 <= k && k < len(p.patterns)
+//@   loop 1 invariant nostruct: forall k in 0..$idx :: !structKind(p.patterns[k])
+//@   loop 1 invariant setnn: set != nil && ($idx == 0 ==> set == value)
+//@   loop 1 invariant noex1: len(p.patterns) == 1 && structKind(p.patterns[0]) ==> len(extraElements) == 0
+//@   loop 2 invariant bnd: 0 <= $idx && $idx <= len(p.patterns)
+//@   loop 2 invariant dom2: forall k: Int :: has(extraElements, k) ==> 0 <= k && k < $idx
+//@   loop 2 invariant noex2: len(extraElements) >= 0 && (len(p.patterns) == 1 && structKind(p.patterns[0]) ==> len(extraElements) == 0)
 
 //@ func (LiteralExpr).Literal(e)
 //@   tags C10
